@@ -98,8 +98,11 @@ def prepare(case):
     tiled = tiled_of(case)
     shape = case["shape"]
     Ts = []
-    for bs, tree in zip(case["ops"], case["trees"]):
-        T = U.build_tensor(tree, len(bs), [shape[v] for v in bs], 0,
+    for j, (bs, tree) in enumerate(zip(case["ops"], case["trees"])):
+        # est: the operand's shape is not declared - Tensor.fromFiber(rank_ids, fiber) estimates it from
+        # the stored coordinates (per rank, over all fibers of the rank)
+        declared = not (case.get("est") or [False] * (j + 1))[j]
+        T = U.build_tensor(tree, len(bs), [shape[v] for v in bs] if declared else None, 0,
                            rank_ids=[NAMES[v] for v in bs])
         for v in bs:
             if v in tiled:
